@@ -167,6 +167,8 @@ impl WorldGenerator for Markdown {
         self.hrefs
             .insert(name.to_string(), format!("#{}", name.to_snake_case()));
         let mut r#gen = self.interface(resolve);
+        r#gen.docs(&resolve.interfaces[id].docs);
+        r#gen.push_str("\n");
         r#gen.types(id);
         r#gen.funcs(id);
         Ok(())
